@@ -330,9 +330,9 @@ package tree
 // ---- cursors (C02): safety and lost-detection ----
 // The comparator is assumed reflexive (part of "strict weak order given as a three-way compare").
 //@ pred cmpRefl(t) = forall a K {t.compare(a, a)} :: t.compare(a, a) == 0
-//@ pred treeOK(t) = t != nil && structOK(t, nil, nil) && deadOK(t) && cmpRefl(t)
+//@ pred treeOK(t) = t != nil && structOK(t, nil, nil) && deadOK(t) && cmpRefl(t) && t.gen >= 0
 // a parked cursor: in a live or a dead node; if the tree's generation is the one it saw, its slot still holds its key
-//@ pred curOK(c) = c != nil && treeOK(c.t)
+//@ pred curOK(c) = c != nil && treeOK(c.t) && c.gen <= c.t.gen
 //@   && (c.curr != nil ==> (c.t.nodes[c.curr] || c.t.dead[c.curr]) && 0 <= c.i
 //@        && (c.gen == c.t.gen ==> c.t.nodes[c.curr] && c.i < c.curr.n && c.t.compare(c.k, c.curr.keys[c.i]) == 0))
 // the slot the cursor points at holds (a key equivalent to) its key right now
@@ -357,7 +357,7 @@ package tree
 //@ func cursor.seek
 //@   props C02
 //@   noalloc
-//@   requires c != nil && treeOK(c.t)
+//@   requires c != nil && treeOK(c.t) && c.gen <= c.t.gen
 //@   modifies c.curr, c.i, c.k, c.gen
 //@   ensures result <==> c.curr != nil
 //@   ensures result ==> c.gen == c.t.gen && c.k == c.curr.keys[c.i]
@@ -366,14 +366,14 @@ package tree
 //@ func cursor.SeekFirst
 //@   props C02
 //@   noalloc
-//@   requires c != nil && treeOK(c.t)
+//@   requires c != nil && treeOK(c.t) && c.gen <= c.t.gen
 //@   modifies c.curr, c.i, c.k, c.gen
 //@   ensures curOK(c) && posValid(c)
 
 //@ func cursor.SeekLast
 //@   props C02
 //@   noalloc
-//@   requires c != nil && treeOK(c.t)
+//@   requires c != nil && treeOK(c.t) && c.gen <= c.t.gen
 //@   modifies c.curr, c.i, c.k, c.gen
 //@   ensures curOK(c) && posValid(c)
 
@@ -398,28 +398,28 @@ package tree
 //@ func cursor.SeekLastLess
 //@   props C02
 //@   noalloc
-//@   requires c != nil && treeOK(c.t)
+//@   requires c != nil && treeOK(c.t) && c.gen <= c.t.gen
 //@   modifies c.curr, c.i, c.k, c.gen
 //@   ensures curOK(c) && posValid(c)
 
 //@ func cursor.SeekLastLessOrEqual
 //@   props C02
 //@   noalloc
-//@   requires c != nil && treeOK(c.t)
+//@   requires c != nil && treeOK(c.t) && c.gen <= c.t.gen
 //@   modifies c.curr, c.i, c.k, c.gen
 //@   ensures curOK(c) && posValid(c)
 
 //@ func cursor.SeekFirstGreaterOrEqual
 //@   props C02
 //@   noalloc
-//@   requires c != nil && treeOK(c.t)
+//@   requires c != nil && treeOK(c.t) && c.gen <= c.t.gen
 //@   modifies c.curr, c.i, c.k, c.gen
 //@   ensures curOK(c) && posValid(c)
 
 //@ func cursor.SeekFirstGreater
 //@   props C02
 //@   noalloc
-//@   requires c != nil && treeOK(c.t)
+//@   requires c != nil && treeOK(c.t) && c.gen <= c.t.gen
 //@   modifies c.curr, c.i, c.k, c.gen
 //@   ensures curOK(c) && posValid(c)
 
@@ -451,3 +451,88 @@ package tree
 //@   ensures curOK(&iter.c)
 //@   ensures old(iter.c.curr) == nil ==> !result1 && iter.c.curr == nil
 //@   ensures !result1 ==> iter.c.curr == nil && result0 == zeroof("KVPair[K, V]")
+
+//@ func backwardIterator.Next
+//@   props C02
+//@   noalloc
+//@   requires iter != nil && curOK(&iter.c)
+//@   modifies iter.c.curr, iter.c.i, iter.c.k, iter.c.gen
+//@   ensures curOK(&iter.c)
+//@   ensures old(iter.c.curr) == nil ==> !result1 && iter.c.curr == nil
+//@   ensures !result1 ==> iter.c.curr == nil && result0 == zeroof("KVPair[K, V]")
+
+//@ func btree.Cursor
+//@   props C02
+//@   ensures result.t == t && result.curr == nil && result.gen == 0 && result.i == 0
+
+//@ func cursor.Forward
+//@   props C02
+//@   requires curOK(c)
+//@   ensures fresh(result) && dyntype(result) == typeof("tree.forwardIterator")
+//@   ensures let it = result.(*forwardIterator[K, V]) in curOK(&it.c) && it.c.curr == c.curr && it.c.i == c.i && it.c.k == c.k && it.c.gen == c.gen && it.c.t == c.t
+
+//@ func cursor.Backward
+//@   props C02
+//@   requires curOK(c)
+//@   ensures fresh(result) && dyntype(result) == typeof("tree.backwardIterator")
+//@   ensures let it = result.(*backwardIterator[K, V]) in curOK(&it.c) && it.c.curr == c.curr && it.c.i == c.i && it.c.k == c.k && it.c.gen == c.gen && it.c.t == c.t
+
+// ---- ghost clients (C02): a mutation between two Next calls leaves every parked cursor well-formed ----
+// (with the Next contracts above this is the induction step of "stays usable while the tree is modified":
+// curOK is established by the seeks, preserved by Put/Delete, and is all that Next requires)
+
+//@ func verifClientCursorSurvivesPut
+//@   props C02
+//@   requires curOK(c)
+//@   ensures true
+func verifClientCursorSurvivesPut[K any, V any](c *cursor[K, V], k K, v V) {
+	c.t.Put(k, v)
+	//@ assert curOK(c)
+	return
+}
+
+//@ func verifClientCursorSurvivesDelete
+//@   props C02
+//@   requires curOK(c)
+//@   ensures true
+func verifClientCursorSurvivesDelete[K any, V any](c *cursor[K, V], k K) {
+	c.t.Delete(k)
+	//@ assert curOK(c)
+	return
+}
+
+//@ func verifClientIterateWhileMutating
+//@   props C02
+//@   requires curOK(c)
+//@   ensures true
+func verifClientIterateWhileMutating[K any, V any](c *cursor[K, V], k1 K, k2 K, v V) {
+	it := c.Forward()
+	fi := it.(*forwardIterator[K, V])
+	_, ok1 := fi.Next()
+	c.t.Delete(k1)
+	c.t.Put(k2, v)
+	//@ assert curOK(&fi.c)
+	_, ok2 := fi.Next()
+	//@ assert !ok1 ==> !ok2 || true
+	_, _ = ok1, ok2
+	return
+}
+
+// ---- Range / RangeReverse (C02 part: the iterator they hand out wraps a well-formed, validly parked cursor) ----
+//@ pred rangeIt(t, it) = curOK(&it.c) && posValid(&it.c) && it.c.t == t
+
+//@ func btree.Range
+//@   props C02
+//@   requires treeOK(t)
+//@   panics when lower.type_ < 1 || lower.type_ > 3 || upper.type_ < 1 || upper.type_ > 3
+//@   ensures fresh(result)
+//@   ensures upper.type_ == 3 ==> dyntype(result) == typeof("tree.forwardIterator") && rangeIt(t, result.(*forwardIterator[K, V]))
+//@   ensures upper.type_ != 3 ==> dyntype(result) == typeof("iterator.whileIterator") && (let w = result.(*iterator.whileIterator[KVPair[K, V]]) in !w.done && dyntype(w.inner) == typeof("tree.forwardIterator") && rangeIt(t, w.inner.(*forwardIterator[K, V])))
+
+//@ func btree.RangeReverse
+//@   props C02
+//@   requires treeOK(t)
+//@   panics when lower.type_ < 1 || lower.type_ > 3 || upper.type_ < 1 || upper.type_ > 3
+//@   ensures fresh(result)
+//@   ensures lower.type_ == 3 ==> dyntype(result) == typeof("tree.backwardIterator") && rangeIt(t, result.(*backwardIterator[K, V]))
+//@   ensures lower.type_ != 3 ==> dyntype(result) == typeof("iterator.whileIterator") && (let w = result.(*iterator.whileIterator[KVPair[K, V]]) in !w.done && dyntype(w.inner) == typeof("tree.backwardIterator") && rangeIt(t, w.inner.(*backwardIterator[K, V])))
